@@ -14,10 +14,18 @@ driver on every request), and the "distinguishes" clauses — different callable
 types, argument counts, and sharing structure each force `false`.
 Also proved: the value comparison (`valEq`, everything except the sharing walk) is symmetric and
 transitive — the dict / Buildable case by a pigeonhole argument over key sets.
-Not proved (correspondence only): symmetry and transitivity of the *sharing walk*, and
-invariance under dict insertion order.
+The sharing walk is characterised declaratively (`Lemmas/ShareL.lean`): it succeeds exactly when
+a one-to-one closed correspondence between the objects of the two configurations exists; the
+walk's own result is such a correspondence (soundness) and, if one exists, the walk cannot fail
+(completeness).  Symmetry of `==` follows, although the two directions visit children in
+different orders; and `==` does not depend on the order in which dict entries or arguments were
+inserted (`Reordered`).
+Not proved (correspondence only): transitivity of the *sharing walk* (it needs the value
+comparison at every paired node), and congruence with `build`.
 -/
 import FiddleModel.Lemmas.EqSymm
+import FiddleModel.Lemmas.ShareL
+import FiddleModel.Lemmas.EqOrder
 
 namespace Fiddle
 
@@ -109,7 +117,70 @@ theorem C06_sharing_mismatch_is_unequal (h1 h2 : Heap) (r1 r2 : GVal)
     buildableEq h1 h2 r1 r2 = false := by
   simp [buildableEq, hs]
 
+/-! ## The sharing walk as a one-to-one correspondence -/
+
+/-- **What the sharing walk decides**: it succeeds exactly when there is a one-to-one
+    correspondence `B` between objects of the two configurations that pairs the roots and is
+    closed — paired objects have the same keys, and their children under equal keys are paired
+    again (internable values are skipped, opaque values are paired but not entered). -/
+theorem C06_sharing_walk_characterised (h1 h2 : Heap) (w1 : h1.EqWF) (r1 r2 : GVal)
+    (hr : ∀ i, r1 = .ref i → i < h1.length) :
+    (shareVisit h1 h2 (h1.length + h2.length + 2) r1 r2 {}).isSome = true ↔
+      ∃ B, Corr h1 h2 B ∧ Rec h1 h2 B r1 r2 :=
+  shareVisit_iff h1 h2 w1 _ r1 r2 (fun i hi => by have := hr i hi; omega)
+
+/-- The correspondence the walk itself builds is one-to-one and closed, contains the root pair
+    and every pair reached from it. -/
+theorem C06_sharing_walk_result (h1 h2 : Heap) (fuel : Nat) (r1 r2 : GVal) (st : ShareSt)
+    (h : shareVisit h1 h2 fuel r1 r2 {} = some st) :
+    Corr h1 h2 st.xToY ∧ Rec h1 h2 st.xToY r1 r2 ∧ st.yToX = st.xToY.map Prod.swap := by
+  have ok := shareVisit_sound h1 h2 fuel r1 r2 {} st ShareSt.inv_empty h
+  exact ⟨corr_of_inv h1 h2 st ok.inv (fun p hp => ok.closed p hp (by simp)), ok.recd, ok.inv.inv⟩
+
+/-- **`==` is symmetric**: values (`C06_values_symmetric`) and sharing walk together. -/
+theorem C06_symmetric (h1 h2 : Heap) (w1 : h1.EqWF) (w2 : h2.EqWF) (r1 r2 : GVal)
+    (hr1 : ∀ i, r1 = .ref i → i < h1.length) (hr2 : ∀ j, r2 = .ref j → j < h2.length)
+    (h : buildableEq h1 h2 r1 r2 = true) : buildableEq h2 h1 r2 r1 = true := by
+  unfold buildableEq at h ⊢
+  simp only [Bool.and_eq_true] at h ⊢
+  have e : h2.length + h1.length + 2 = h1.length + h2.length + 2 := by omega
+  rw [e]
+  refine ⟨valEq_symm h1 h2 w1 w2 _ r1 r2 h.1, ?_⟩
+  exact shareVisit_symm h1 h2 w1 w2 _ _ r1 r2
+    (fun i hi => by have := hr1 i hi; omega) (fun j hj => by have := hr2 j hj; omega) h.2
+
+/-- **`==` ignores dict insertion order and argument assignment order**: listing the entries of
+    any dicts, defaultdicts or Buildables (on either side) in another order changes neither the
+    value comparison nor the sharing walk. -/
+theorem C06_insertion_order_ignored (h1 h1' h2 h2' : Heap) (r1 : Reordered h1 h1')
+    (r2 : Reordered h2 h2') (w1 : h1.EqWF) (w1' : h1'.EqWF) (w2 : h2.EqWF) (w2' : h2'.EqWF)
+    (x y : GVal) (hx : ∀ i, x = .ref i → i < h1.length) :
+    buildableEq h1' h2' x y = buildableEq h1 h2 x y :=
+  buildableEq_reordered r1 r2 w1 w1' w2 w2' x y hx
+
 /-! ## Non-vacuity -/
+
+private def dAB : Heap :=
+  [ { kind := .list, children := [] },
+    { kind := .dict, children := [(.key "a", .ref 0), (.key "b", .atom "2")] } ]
+private def dBA : Heap :=
+  [ { kind := .list, children := [] },
+    { kind := .dict, children := [(.key "b", .atom "2"), (.key "a", .ref 0)] } ]
+
+/-- a dict with its two entries swapped is a reordering -/
+example : Reordered dAB dBA := by
+  refine ⟨rfl, ?_⟩
+  intro i o ho
+  match i, ho with
+  | 0, ho =>
+    simp [dAB] at ho; subst ho
+    exact ⟨_, rfl, rfl, rfl, rfl, List.Perm.refl _, List.Perm.refl _, fun _ => rfl⟩
+  | 1, ho =>
+    simp [dAB] at ho; subst ho
+    refine ⟨_, rfl, rfl, rfl, rfl, List.Perm.swap _ _ _, ?_, fun h => by simp [GObj.seqLike] at h⟩
+    simp only [childrenWithDefaults]
+    exact List.Perm.swap _ _ _
+  | n + 2, ho => simp [dAB] at ho
 
 private def two : Heap :=
   [ { kind := .list, children := [] },
